@@ -341,7 +341,7 @@ def check(rep: Report, tier: str, seed: int) -> None:
         rep.fail(wmsg, ic.ser_case(WITNESS), klass=classify(WITNESS, wmsg, wout))
     ic.compare_schedule(rep, "c16", cases, outs, due)
     rep.extra["oracle_worst_over_allowed"] = round(worst, 4)
-    if rep.broken and not rep.failing:
+    if rep.broken and not rep.unknown_failing():
         search(rep, seed, 80 if tier == "quick" else 1500)
 
 
